@@ -3,7 +3,7 @@
 //! be indistinguishable from the same choices replayed alone on a fresh graph.
 use std::{future::Future, ops::ControlFlow, pin::Pin, time::Instant};
 
-use fn_graph::{FnGraph, StreamOpts, StreamOutcome};
+use fn_graph::{FnGraph, StreamOutcome};
 use futures::FutureExt;
 use interruptible::{InterruptSignal, InterruptibilityState};
 use serde_json::{json, Value};
@@ -264,10 +264,7 @@ fn shared_fut<'a>(g: &'a FnGraph<Node>, cfg: &RunCfg, sh: &Sh, irx: &'a mut mpsc
         Strat::Finish => InterruptibilityState::new_finish_current(irx.into()),
         Strat::NextN(k) => InterruptibilityState::new_poll_next_n(irx.into(), k),
     };
-    let mut opts = StreamOpts::new().interruptibility_state(state).interrupted_next_item_include(cfg.include);
-    if cfg.rev {
-        opts = opts.rev();
-    }
+    let opts = crate::engine_s::build_opts(cfg.opts_order, state, cfg.include, cfg.rev);
     let limit = cfg.limit;
     let sh2 = sh.clone();
     let unit = |()| Vec::<usize>::new();
